@@ -37,6 +37,8 @@ var c08Variants = []string{
 	/* 12 defines fA/1    */ "function fA(a)\n  return a\nend\n",
 	/* 13 empty           */ "",
 	/* 14 goto + misc     */ "goto done\nlocal q = 1\nq = q\n::done::\nprint(1 == 1.5)\n",
+	/* 15 extends K       */ "function K:ext%[1]s() end\nK.v%[1]s = 1\nfunction K:shared() end\n",
+	/* 16 uses K members  */ "print(K, K.shared, K.nosuchmember)\nK:shared()\n",
 }
 
 func c08Content(r *rand.Rand, name string) string {
